@@ -47,7 +47,7 @@ def run(chk):
     chk.cov['exhaustive'] = True
     chk.part('M2', abstract_hosts=len(abstract), theorems='AtMostOne, LaterNoChange, NestedFirst hold')
     nhosts = nontriv = 0
-    configs = [(True, None, False), (False, None, True), (True, [-3000.0, 10.0, 20.0], False)] if chk.quick else \
+    configs = [(True, None, False), (False, None, True), (True, [-3000.0, 10.0, 20.0], False), (False, [-2000.0, 35.0, -15.0], False)] if chk.quick else \
         [(True, None, False), (False, None, True), (True, [-3000.0, 10.0, 20.0], True), (False, [-3000.0, 10.0, 20.0], False), (True, None, True)]
     for S in subsets():
         tracers = {t: dict(hc.TRACERS[t]) for t in S}
